@@ -52,7 +52,7 @@ def run(run):
     try:
         thorough = run.tier == 'thorough'
         r = seed() % 5
-        plans = [('n<=2 all separators', dict(maxmsgs=2, pool=(1, 2, 3, 4), seps=(1, 2, 3, 4, 5), faults=(), modes=VALID_MODES)),
+        plans = [('n<=2 all separators', dict(maxmsgs=2, pool=(1, 2, 3, 4, 6), seps=(1, 2, 3, 4, 5), faults=(), modes=VALID_MODES)),
                  ('n<=3 uniform separators', dict(maxmsgs=3, pool=(1, 2, 3, 4) if thorough else (1, 2, 3), seps=(1, 2, 3, 4, 5) if thorough else (1, 2 + r % 4),
                                                  faults=(), modes=VALID_MODES, uniform=True))]
         # length sweep: 256 (thorough 509) consecutive total lengths, i.e. every value of the low length octet, 16 messages per stream
